@@ -165,7 +165,23 @@ class SetIter(SymIter):
     def __init__(self, s: SV, site: str):
         self.s = s
         ety = s.ty.args[0]
+        self.site = site
         self.order = core.fresh(TSeq(ety), f"iterorder[{site}]")
+        self.pos = z3.Function(f"iterpos[{site}]!{next(core._FRESH)}", ety.sort(), z3.IntSort())
+
+    def member_fact(self, k_term):
+        """the element visited at step k is a member"""
+        return z3.Select(self.s.t, self.order.t[k_term])
+
+    def visited_fact(self, g_term):
+        """every member g is visited at its (Skolem) position"""
+        p = self.pos(g_term)
+        return z3.Implies(z3.Select(self.s.t, g_term),
+                          z3.And(p >= 0, p < z3.Length(self.order.t), self.order.t[p] == g_term))
+
+    def position_fact(self, k_term):
+        """positions are consistent: the element at step k has position k (elements are visited once)"""
+        return z3.Implies(z3.And(k_term >= 0, k_term < z3.Length(self.order.t)), self.pos(self.order.t[k_term]) == k_term)
 
     def length(self):
         return SV(TInt, z3.Length(self.order.t))
@@ -389,6 +405,8 @@ def compare(op, a, b):
 
 
 def contains(container, x):
+    if hasattr(container, "has") and hasattr(container, "kty"):
+        return container.has(x)
     if isinstance(container, SV):
         k = container.ty.kind
         if k == "set":
@@ -464,6 +482,8 @@ def length(v):
 
 
 def subscript(v, idx):
+    if hasattr(v, "get") and hasattr(v, "kty"):
+        return v.get(idx)
     if isinstance(v, SV):
         k = v.ty.kind
         if k == "seq":
